@@ -481,6 +481,19 @@ func main() {
 
 	fmt.Fprintf(&out, "/-- assignments to package-level variables inside function bodies, as func:var -/\ndef stackGlobalWrites : List String := [%s]\ndef internalGlobalWrites : List String := [%s]\n\n", quoteAll(st.globalWrites()), quoteAll(in.globalWrites()))
 
+	stackFns := map[string]bool{}
+	for _, n := range []string{"Args.merge", "Call.merge", "Stack.merge", "Signature.merge", "Snapshot.Aggregate", "Args.walk", "Args.String", "Arg.String",
+		"Args.equal", "Args.similar", "Arg.equal", "Arg.similar", "Call.equal", "Call.similar", "Stack.equal", "Stack.similar", "Stack.less", "Signature.equal", "Signature.similar", "Signature.less", "Signature.SleepString",
+		"Aggregated.ToHTML", "Snapshot.ToHTML", "toHTML", "funcClass", "minus", "pkgURL", "srcURL", "escape", "getSrcBranchURL", "splitHost", "splitTag", "symbol", "Snapshot.IsRace", "Func.String"} {
+		stackFns[n] = true
+	}
+	internalFns := map[string]bool{}
+	for _, n := range []string{"writeBucketsToConsole", "writeGoroutinesToConsole", "pathFormat.formatCall", "pathFormat.createdByString", "calcBucketsLengths", "calcGoroutinesLengths",
+		"Palette.functionColor", "Palette.funcColor", "Palette.routineColor", "Palette.BucketHeader", "Palette.GoroutineHeader", "Palette.callLine", "Palette.StackLines"} {
+		internalFns[n] = true
+	}
+	fmt.Fprintf(&out, "/-- writes through anything but a plain local in the functions reachable from Aggregate / ToHTML / the console writers: func | expression | origin of the root variable -/\ndef stackWriteSet : List String := [%s]\ndef internalWriteSet : List String := [%s]\n\n", quoteAll(st.writeSet(stackFns)), quoteAll(in.writeSet(internalFns)))
+
 	webFacts(*repo)
 	templateFacts(*repo)
 
